@@ -700,8 +700,18 @@ impl<'a> Searcher<'a> {
 
                                         if file_type.is_symlink() {
                                             if let Ok(resolved) = std::fs::read_link(&path) {
-                                                ok = true;
-                                                path = resolved;
+                                                // a relative target is relative to the directory of the link
+                                                let resolved = match path.parent() {
+                                                    Some(parent) if resolved.is_relative() => {
+                                                        parent.join(resolved)
+                                                    }
+                                                    _ => resolved,
+                                                };
+
+                                                if resolved.is_dir() {
+                                                    ok = true;
+                                                    path = resolved;
+                                                }
                                             }
                                         } else if file_type.is_dir() {
                                             ok = true;
